@@ -14,7 +14,8 @@ func c06inv(r *Reader) bool {
 	B := int(r.SysExBufferSize)
 	switch r.state {
 	case readerStateClean:
-		return zz.And(!r.issetBf, r.statusByte == 0 || (r.statusByte >= 0x80 && r.statusByte <= 0xEF))
+		return zz.And(!r.issetBf, r.statusByte == 0 || (r.statusByte >= 0x80 && r.statusByte <= 0xEF),
+			zz.Implies(r.statusByte != 0, r.typ == r.statusByte>>4))
 	case readerStateWithinChannelMessage:
 		return zz.And(r.statusByte >= 0x80, r.statusByte <= 0xEF, r.typ == r.statusByte>>4,
 			zz.Implies(r.issetBf, r.typ != 0xC && r.typ != 0xD), zz.Implies(r.issetBf, r.bf < 0x80))
@@ -23,11 +24,11 @@ func c06inv(r *Reader) bool {
 			zz.Implies(r.issetBf, r.typ == 0xF2), zz.Implies(r.issetBf, r.bf < 0x80))
 	case readerStateInSysEx:
 		if !r.HandleSysex {
-			return zz.And(r.statusByte == 0, !r.issetBf || true)
+			return zz.And(r.statusByte == 0, !r.issetBf)
 		}
-		return zz.And(r.statusByte == 0, len(r.sysexBf) == B, r.sysexlen >= 1, r.sysexlen <= B-1 || r.sysexlen == 1)
+		return zz.And(r.statusByte == 0, !r.issetBf, len(r.sysexBf) == B, r.sysexlen >= 1, r.sysexlen <= B-1 || r.sysexlen == 1)
 	case readerStateWithinUnknown:
-		return r.statusByte == 0
+		return zz.And(r.statusByte == 0, !r.issetBf)
 	}
 	return false
 }
@@ -39,12 +40,13 @@ func c06sim(r *Reader, m *ZZRefRecv) bool {
 	}
 	switch r.state {
 	case readerStateClean:
-		return zz.And(m.mode == zzIdle, m.rs == r.statusByte)
+		return zz.And(m.mode == zzIdle, m.rs == r.statusByte, !m.hasD1)
 	case readerStateWithinChannelMessage:
 		return zz.And(m.mode == zzChan, m.cur == r.statusByte, m.rs == r.statusByte, m.need == zzNeed(r.statusByte),
-			m.hasD1 == r.issetBf, zz.Implies(r.issetBf, m.d1 == r.bf))
+			m.hasD1 == r.issetBf, zz.Implies(r.issetBf, m.d1 == r.bf), zz.Implies(m.hasD1, m.need == 2))
 	case readerStateWithinSysCommon:
-		return zz.And(m.mode == zzSys, m.cur == r.typ, m.rs == 0, m.need == zzNeed(r.typ), m.hasD1 == r.issetBf, zz.Implies(r.issetBf, m.d1 == r.bf))
+		return zz.And(m.mode == zzSys, m.cur == r.typ, m.rs == 0, m.need == zzNeed(r.typ), m.hasD1 == r.issetBf, zz.Implies(r.issetBf, m.d1 == r.bf),
+			zz.Implies(m.hasD1, m.need == 2))
 	case readerStateInSysEx:
 		if !r.HandleSysex {
 			return zz.And(m.mode == zzSysex || m.mode == zzSysexOverflow, m.rs == 0)
@@ -65,7 +67,7 @@ func c06sim(r *Reader, m *ZZRefRecv) bool {
 		if m.mode == zzSkip || m.mode == zzSysexOverflow {
 			return true
 		}
-		return m.mode == zzSysex && r.HandleSysex && len(m.buf) >= int(r.SysExBufferSize)-1
+		return m.mode == zzSysex && r.HandleSysex && len(m.buf) >= int(r.SysExBufferSize)
 	}
 	return false
 }
